@@ -39,6 +39,10 @@ def tables(tier):
     T.append(('s2-disjoint', [(r'/a$', [URLS[0]]), (r'/b$', [URLS[3]])], {}))
     T.append(('s2-overlap', [(r'/a', [URLS[2]]), (r'/a/b$', [URLS[3]])], {}))
     T.append(('s2-overlap-rev', [(r'/a/b$', [URLS[3]]), (r'/a', [URLS[2]])], {}))
+    # prefix routes: a route regex applies at the START of the path -- a path that merely CONTAINS another
+    # route's pattern further in ('/b/a', '/zzz/d/7') is not that route's
+    T.append(('s2-prefix', [(r'/a', [URLS[0]]), (r'/b', [URLS[3]])], {}))
+    T.append(('s2-prefix-dyn', [r'/d/(\d+)$', (r'/b', [URLS[3]])], {r'/d/(\d+)$': 'url'}))
     T.append(('dyn-url', [], {r'/d/(\d+)$': 'url'}))
     T.append(('dyn-literal', [], {r'/lit$': 'literal'}))
     T.append(('mixed', [(r'/a$', [URLS[1]])], {r'/d/(\d+)$': 'url', r'/lit$': 'literal'}))
@@ -59,7 +63,7 @@ def dyn_handler(kind):
     return h
 
 
-PATHS = [b'/a', b'/a/b', b'/b', b'/zzz', b'/', b'/d/7', b'/lit', b'/a?x=1', b'/A']
+PATHS = [b'/a', b'/a/b', b'/b', b'/zzz', b'/', b'/d/7', b'/lit', b'/a?x=1', b'/A', b'/b/a', b'/b/d/7']
 REQS = [
     ('GET', lambda p: b'GET %s HTTP/1.1\r\nHost: front.test\r\nX-A: b\r\n\r\n' % p, b'GET', b''),
     ('POST', lambda p: b'POST %s HTTP/1.1\r\nHost: front.test\r\nContent-Length: 4\r\nX-A: b\r\n\r\nbody' % p, b'POST', b'body'),
@@ -277,7 +281,7 @@ def check(w):
 def run(tier):
     return netcheck.run(PROP, tier, scenarios(tier), check, 1, None, det_every=17,
                         rule='route tables (static routes with 1..2 upstream URLs from a 6-URL alphabet, overlapping / disjoint '
-                             'pairs, dynamic routes returning a Url or a literal response) x 9 request paths x request kinds x '
+                             'pairs, dynamic routes returning a Url or a literal response) x 11 request paths x request kinds x '
                              'Host-rewrite off/on; every outcome of random.choice is branched (kind D)')
 
 
